@@ -129,7 +129,8 @@ def shrink_for_oracle(ctx, sc, oracle, attribute, sig, budget=60):
     cur = list(sc)
     # shrink play items first
     for k, l in enumerate(cur):
-        if l.startswith("conn play "):
+        if l.startswith("conn play ") or l.startswith("conn pump "):
+            opname = l[:10]
             items = l[10:].split(",")
             n = max(len(items) // 2, 1)
             tries = 0
@@ -137,7 +138,7 @@ def shrink_for_oracle(ctx, sc, oracle, attribute, sig, budget=60):
                 i = 0
                 while i < len(items) and len(items) > 1 and tries < budget:
                     cand_items = items[:i] + items[i + n:]
-                    cand = cur[:k] + ["conn play " + ",".join(cand_items)] + cur[k + 1:]
+                    cand = cur[:k] + [opname + ",".join(cand_items)] + cur[k + 1:]
                     tries += 1
                     if cand_items and fails(cand):
                         items = cand_items
